@@ -13,21 +13,29 @@ func UnmarshalSelectionSet(b []byte) (SelectionSet, error) {
 
 	result := make([]Selection, 0)
 	for _, item := range tmp {
-		var field Field
-		if err := json.Unmarshal(item, &field); err == nil {
-			result = append(result, &field)
-			continue
+		// Every selection kind decodes into a Field without error, so pick the
+		// kind from the keys each of them encodes to.
+		var keys map[string]json.RawMessage
+		if err := json.Unmarshal(item, &keys); err != nil {
+			return nil, err
 		}
-		var fragmentSpread FragmentSpread
-		if err := json.Unmarshal(item, &fragmentSpread); err == nil {
-			result = append(result, &fragmentSpread)
-			continue
+		_, hasTypeCondition := keys["TypeCondition"]
+		_, hasName := keys["Name"]
+		_, hasAlias := keys["Alias"]
+
+		var selection Selection
+		switch {
+		case hasTypeCondition:
+			selection = &InlineFragment{}
+		case hasName && !hasAlias:
+			selection = &FragmentSpread{}
+		default:
+			selection = &Field{}
 		}
-		var inlineFragment InlineFragment
-		if err := json.Unmarshal(item, &inlineFragment); err == nil {
-			result = append(result, &inlineFragment)
-			continue
+		if err := json.Unmarshal(item, selection); err != nil {
+			return nil, err
 		}
+		result = append(result, selection)
 	}
 
 	return result, nil
